@@ -2,5 +2,5 @@
 from checks import seqcheck
 
 def main(tier, seed, replay):
-    return seqcheck.main("C07", "Properties/C07.v", tier, seed, replay, scenarios=['cache','recompute','basic','pool','faults','midround','straddle','storm'],
+    return seqcheck.main("C07", "Properties/C07.v", tier, seed, replay, scenarios=['cache','recompute','basic','pool','faults','midround','straddle','legacy','storm'],
                          own_prefixes=tuple("C07,C02".split(",")))
